@@ -1,8 +1,9 @@
 package main
 
 // Family "records" (C17): histories of struct declarations, constructions,
-// decodings and field writes through every write route of the language on the
-// real interpreter.  After every step the result (ok / err / panic) and, for
+// decodings, round trips through the encodings, pointers kept in variables and
+// field writes through every write route of the language on the real
+// interpreter.  After every step the result (ok / err / panic) and, for
 // every instance bound to a variable, its keys and the type of each value are
 // recorded; TLC validates every case against spec/Records.tla through
 // spec/RecordsTrace.tla.
